@@ -3,6 +3,7 @@ package main
 import (
 	"fmt"
 	"math/rand/v2"
+	"os"
 	"strconv"
 	"strings"
 	"sync"
@@ -714,12 +715,15 @@ func genSpecs(rng *rand.Rand, thorough bool, round int) (a, b, st []spec) {
 	for i := range a {
 		a[i].ID = i
 	}
-	nst := 12
+	nst, batch := 12, 4000
+	if v := os.Getenv("VERIF_C14_STORM"); v != "" { // experiments only: "<databases>,<rows per batch>"
+		fmt.Sscanf(v, "%d,%d", &nst, &batch)
+	}
 	for i := 0; i < nst; i++ {
 		sp := mk("storm", 30)
 		sp.P1Class, sp.P1Off = "last-ns", 1
 		sp.StaggerMs = i * 1000 / nst
-		sp.Batch = 4000
+		sp.Batch = batch
 		sp.ID = 200 + i
 		st = append(st, sp)
 	}
